@@ -87,6 +87,11 @@ func (c *DSLContext) Roots() ([]Root, error) {
 	// Check for cycles
 	for name, deps := range rootDeps {
 		root := rootByName[name]
+		for _, dep := range root.DependsOn() {
+			if dep.EvalName() == root.EvalName() {
+				return nil, fmt.Errorf("dependency cycle: %s depends on itself", root.EvalName())
+			}
+		}
 		for otherName, otherdeps := range rootDeps {
 			other := rootByName[otherName]
 			if root.EvalName() == other.EvalName() {
